@@ -33,6 +33,7 @@ class Argument:
         checker=None,
         constant=False,
         is_data=False,
+        optional=None,
     ):
         """Creates a new argument
 
@@ -75,6 +76,9 @@ class Argument:
         self.constant = constant
         self.ignored = self.type.ignore if ignored is None else ignored
         self.required = required
+        # Whether None is a value of the parameter: declared Optional[...] with
+        # type hints; otherwise (old-style declarations) whenever not required
+        self.optional = (not required) if optional is None else optional
         self.objecttype = None
         self.is_data = is_data
 
@@ -141,6 +145,7 @@ class ArgumentOptions:
         self.kwargs["required"] = (optionaltype is None) and (
             self.kwargs["default"] is None
         )
+        self.kwargs["optional"] = optionaltype is not None
 
         return Argument(name, type, **self.kwargs)
 
